@@ -321,6 +321,85 @@ Proof.
   rewrite reread_fixed by exact Hrt. eapply save_load; eassumption.
 Qed.
 
+(* ---- the configuration directory: the file consulted is exactly <home>/config/<config_name> --------- *)
+Lemma dlookup_app_other : forall (name n : string) (c : dcontent V) (d1 d2 : cdir V),
+  n <> name -> dlookup name (d1 ++ (n, c) :: d2)%list = dlookup name (d1 ++ d2)%list.
+Proof.
+  intros name n c d1 d2 Hne. induction d1 as [|[n1 c1] d1 IH]; cbn.
+  - destruct (String.eqb_spec name n) as [E|_]; [congruence | reflexivity].
+  - destruct (String.eqb name n1); [reflexivity | exact IH].
+Qed.
+
+(* a Load depends on the directory ONLY through the entry called config_name *)
+Theorem config_file_pinned : forall (cn : string) (fields : list field) (flags : list flag) (d d' : cdir V)
+  (args : cargs V) (home : V),
+  dlookup cn d = dlookup cn d' ->
+  load_dir cn fields flags d args home = load_dir cn fields flags d' args home.
+Proof. intros cn fields flags d d' args home H. unfold load_dir, consulted. rewrite H. reflexivity. Qed.
+
+(* any other file — whatever its name (evnode.json, evnode.toml, evnode.yml, evnode, a backup ...), its content
+   and its place in the directory — changes nothing *)
+Theorem siblings_ignored : forall (cn : string) (fields : list field) (flags : list flag) (d1 d2 : cdir V)
+  (name : string) (c : dcontent V) (args : cargs V) (home : V),
+  name <> cn ->
+  load_dir cn fields flags (d1 ++ (name, c) :: d2)%list args home = load_dir cn fields flags (d1 ++ d2)%list args home.
+Proof.
+  intros cn fields flags d1 d2 name c args home Hne. apply config_file_pinned.
+  apply dlookup_app_other. exact Hne.
+Qed.
+
+(* with only other files there (no config_name entry, or one that cannot be read as YAML): the defaults *)
+Theorem no_config_file_is_empty_file : forall (cn : string) (fields : list field) (flags : list flag) (d : cdir V)
+  (args : cargs V) (home : V),
+  (dlookup cn d = None \/ dlookup cn d = Some DOpaque) ->
+  load_dir cn fields flags d args home = load fields flags [] args home.
+Proof. intros cn fields flags d args home [H|H]; unfold load_dir, consulted; rewrite H; reflexivity. Qed.
+
+(* flag > file > default where "file" is the entry config_name of the directory and nothing else *)
+Theorem precedence_dir : forall af afl (fields : list field) (flags : list flag),
+  table_ok veqb af afl fields flags = true ->
+  forall f, In f fields -> settable f = true ->
+  forall (cn : string) (d : cdir V) (args : cargs V) (home : V),
+    load1 flags (consulted cn d) args home f = resolve (f_def f) (file_value cn d f) (flag_value args f).
+Proof.
+  intros af afl fields flags Hok f Hf Hs cn d args home.
+  rewrite (precedence _ _ _ _ Hok f Hf Hs). unfold consulted, file_value.
+  destruct (dlookup cn d) as [[file|]|]; reflexivity.
+Qed.
+
+(* SaveAsYaml then Load in a directory holding ANYTHING else (stale copies under other extensions, an older
+   configuration under config_name itself, unreadable entries) gives back the configuration written *)
+Theorem save_load_dir : forall af afl (fields : list field) (flags : list flag),
+  table_ok veqb af afl fields flags = true ->
+  forall (cn : string) (d : cdir V) (cfg : list V) (home : V),
+    List.length cfg = List.length fields ->
+    (forall f v, In (f, v) (combine fields cfg) -> settable f = false -> v = home) ->
+    load_dir cn fields flags (save_dir cn fields cfg d) [] home = cfg.
+Proof.
+  intros af afl fields flags Hok cn d cfg home Hlen Hhome.
+  unfold load_dir, save_dir, dwrite, consulted. cbn [dlookup]. rewrite String.eqb_refl.
+  eapply save_load; eassumption.
+Qed.
+
+(* ... and writing other files AFTER the save does not change that either *)
+Theorem save_load_dir_later_siblings : forall af afl (fields : list field) (flags : list flag),
+  table_ok veqb af afl fields flags = true ->
+  forall (cn : string) (d : cdir V) (later : cdir V) (cfg : list V) (home : V),
+    (forall n c, In (n, c) later -> n <> cn) ->
+    List.length cfg = List.length fields ->
+    (forall f v, In (f, v) (combine fields cfg) -> settable f = false -> v = home) ->
+    load_dir cn fields flags (later ++ save_dir cn fields cfg d)%list [] home = cfg.
+Proof.
+  intros af afl fields flags Hok cn d later cfg home Hl Hlen Hhome.
+  induction later as [|[n c] later IH].
+  - cbn [app]. eapply save_load_dir; eassumption.
+  - cbn [app].
+    pose proof (siblings_ignored cn fields flags [] (later ++ save_dir cn fields cfg d)%list n c [] home) as Hs.
+    cbn [app] in Hs. rewrite Hs.
+    + apply IH. intros n' c' Hin. apply (Hl n' c'). right. exact Hin.
+    + apply (Hl n c). left. reflexivity.
+Qed.
+
 End WithValues.
 
 (* the full statement (for whatever the YAML libraries do to a scalar) is false: one scalar that does not
@@ -397,3 +476,45 @@ Proof. intros start ws g H. rewrite gputs_last. apply genesis_roundtrip. exact H
 Theorem genesis_overwrite_invalid : forall (start : gfile) (ws : list gfile) (g : genesis),
   gvalidate g = false -> gload (gputs start (ws ++ [gsave g])%list) = None.
 Proof. intros start ws g H. rewrite gputs_last. unfold gsave, gload. rewrite H. reflexivity. Qed.
+
+(* ---- NewGenesis / CreateGenesis: the arguments are stored as given -------------------------------- *)
+Theorem gnew_valid_iff : forall c i t p,
+  gvalidate (gnew c i t p) = true <-> c <> "" /\ (1 <= i)%N /\ t <> 0%Z /\ p <> None.
+Proof. intros c i t p. rewrite gvalidate_iff. cbn. reflexivity. Qed.
+
+(* in particular an EMPTY BUT NON-NIL proposer address is a valid genesis ... *)
+Theorem gnew_empty_proposer_valid : forall c i t,
+  c <> "" -> (1 <= i)%N -> t <> 0%Z -> gvalidate (gnew c i t (Some empty_bytes)) = true.
+Proof. intros c i t Hc Hi Ht. apply gnew_valid_iff. repeat split; try assumption. discriminate. Qed.
+
+(* ... and what NewGenesis built from valid arguments, saved, loads back with exactly those arguments
+   (proposer: nil / empty / bytes kept apart) *)
+Theorem genesis_new_roundtrip : forall c i t p,
+  c <> "" -> (1 <= i)%N -> t <> 0%Z -> p <> None ->
+  gload (gsave (gnew c i t p)) = Some {| gn_chain := c; gn_time := t; gn_initial := i; gn_proposer := p |}.
+Proof.
+  intros c i t p Hc Hi Ht Hp. apply genesis_roundtrip. apply gnew_valid_iff. repeat split; assumption.
+Qed.
+
+Theorem genesis_new_invalid_refused : forall c i t p,
+  (c = "" \/ (i < 1)%N \/ t = 0%Z \/ p = None) -> gload (gsave (gnew c i t p)) = None.
+Proof.
+  intros c i t p H. unfold gsave, gload.
+  destruct (gvalidate (gnew c i t p)) eqn:E; [|reflexivity].
+  apply gnew_valid_iff in E. destruct E as (Hc & Hi & Ht & Hp).
+  destruct H as [H|[H|[H|H]]]; [contradiction | lia | contradiction | contradiction].
+Qed.
+
+(* CreateGenesis where nothing lies: the file it writes loads back as the arguments; where something lies:
+   refused and untouched *)
+Theorem genesis_create_roundtrip : forall c i now p,
+  c <> "" -> (1 <= i)%N -> now <> 0%Z -> p <> None ->
+  gcreate GAbsent c i now p = (gsave (gnew c i now p), true) /\
+  gload (fst (gcreate GAbsent c i now p)) = Some {| gn_chain := c; gn_time := now; gn_initial := i; gn_proposer := p |}.
+Proof.
+  intros c i now p Hc Hi Ht Hp. split; [reflexivity|]. cbn [gcreate fst]. apply genesis_new_roundtrip; assumption.
+Qed.
+
+Theorem genesis_create_keeps_existing : forall f c i now p,
+  f <> GAbsent -> gcreate f c i now p = (f, false).
+Proof. intros [| |g] c i now p H; [contradiction | reflexivity | reflexivity]. Qed.
